@@ -211,7 +211,11 @@ def gammaRegIWith (lg : I) (a x : Rat) : Option I :=
   let (s, t, n) := go 100000 0 one one
   let q := x / (a + ((n + 1 : Nat) : Rat))
   if q > 1 / 2 then none else
-  let ser : I := ⟨ratMax 1 (((s : Rat) - (n + 2 : Nat)) / (one : Rat)), ((s : Rat) + 2 * (t : Rat) + 1) / (one : Rat)⟩
+  -- rounding up makes every computed term t_k ≥ the true scaled term T_k, with E_k = t_k − T_k obeying
+  -- E_{k+1} < E_k q_k + 1, hence E_k/T_k < Σ_{j≤k} 1/T_j and E_k < k T_k/one + k (terms ≥ one while they
+  -- grow, ratios < 1 afterwards); summing, the true sum S satisfies S (1 + n/one) > s − n²
+  let m : Rat := ((n + 2 : Nat) : Rat)
+  let ser : I := ⟨ratMax 1 ((((s : Rat) - m * m) / (1 + m / (one : Rat))) / (one : Rat)), ((s : Rat) + 2 * (t : Rat) + 1) / (one : Rat)⟩
   let e := I.sub (I.sub (I.scale a (I.logQ x)) (I.ofRat x)) lg
   some (I.mul (I.exp e) ser)
 
